@@ -487,14 +487,22 @@ def worker(inp, outp):
             r = run_vector(v, paths, tmp, n)
             r['direct'] = direct_res[n]
             results.append(r)
+        # composite selectors with several mixins: plugin mixins registered through ClassFactory().load_plugin
+        mixres = []
+        if job.get('mix'):
+            from . import fx_mixins
+            mixins = fx_mixins.register(cf)
+            for n, v in enumerate(job['mix']):
+                mixres.append(fx_mixins.run_mix_vector(v, paths, tmp, n, classes, mixins))
         with open(outp, 'w') as f:
             json.dump(dict(hashseed=os.environ.get('PYTHONHASHSEED'), resolved=resolved, order=order, results=results,
-                           tmp=tmp), f)
+                           mixresults=mixres, tmp=tmp), f)
     finally:
         shutil.rmtree(tmp, ignore_errors=True)
 
 
 if __name__ == '__main__':
+    sys.modules['harness.fx_factory'] = sys.modules['__main__']     # one copy of _REC for fx_mixins
     if sys.argv[1] == 'worker':
         worker(sys.argv[2], sys.argv[3])
     elif sys.argv[1] == 'snapshot':
